@@ -82,7 +82,7 @@ def check_converters(prop, res, repo, rule="R-DISPATCH"):
             if order_ok:
                 res.ok(rule, {"site": m.where, "constructor": slots}, nontrivial=f"{name}:slots")
             else:
-                res.fail(rule, finding(prop, rule, m, ctor[0], "the converter does not fill (open, high, low, close, volume, timestamp) from the corresponding keys/positions only: a well-formed input row can become a candle whose close/open lies outside [low, high]"))
+                res.fail(rule, finding(prop, rule, m, ctor[0], "the converter does not hand (open, high, low, close, volume, timestamp) over unchanged from the corresponding keys/positions only (another key, or a coercion such as int()/float() on the way): a well-formed input row becomes a different candle than the same values given as a Candle (fractional volumes truncated, prices outside [low, high])"))
         else:
             res.fail(rule, finding(prop, rule, m, m.node, "converter no longer builds the candle through one constructor call with six slots", construct=f"{name}: constructor"))
 
@@ -111,10 +111,28 @@ def _slots_ok(name, ctor: ast.Call, fn=None) -> bool:
         byname.update({k.arg: k.value for k in ctor.keywords if k.arg})
         if set(byname) != set(want):
             return False
+        def lookup(e) -> bool:
+            """the slot is read off the row and handed over as it is: row.get(key[, default]) / row[key], a choice between such
+            look-ups, or a literal default -- no coercion (int(), float(), round(), abs() ...) in between"""
+            if isinstance(e, ast.Constant):
+                return True
+            if isinstance(e, ast.Call) and isinstance(e.func, ast.Attribute) and e.func.attr == "get" and isinstance(e.func.value, ast.Name) and 1 <= len(e.args) <= 2 and not e.keywords:
+                return all(lookup(x) for x in e.args[1:])
+            if isinstance(e, ast.Subscript) and isinstance(e.value, ast.Name):
+                return True
+            if isinstance(e, ast.IfExp):
+                return lookup(e.body) and lookup(e.orelse)
+            if isinstance(e, ast.BoolOp):
+                return all(lookup(x) for x in e.values)
+            # anything else (a local helper that does the look-up ...) is fine unless a coercion sits in it
+            return not any(isinstance(n, ast.Call) and isinstance(n.func, ast.Name) and n.func.id in ("int", "float", "round", "abs", "str", "bool", "Decimal", "floor", "ceil", "trunc") for n in ast.walk(e))
+
         for w in want:
             a = byname[w]
             keys = [n.value for n in ast.walk(a) if isinstance(n, ast.Constant) and isinstance(n.value, str)]
             if not keys or any(k.lower() != w for k in keys):
+                return False
+            if not lookup(a):
                 return False
         return True
     kws = dict(zip(want, ctor.args))
